@@ -32,7 +32,10 @@ TRUSTED = ["lean/Tahoe/Immutable/{Sizes,Layout,Pipeline}.lean are hand transcrip
            "downloader/{node,share,segmentation}.py/filenode.py (sequential read_encrypted modelled as take/drop on the "
            "remaining ciphertext; the put_* calls of one share modelled as an (offset,length) sequence)",
            "harness/grid.py (in-process grid, seeded scheduler)"]
-ASSUMPTIONS = ["zfec satisfies the MDS law and block length = piece length (hypothesis Codec.Lawful; sampled by every end-to-end "
+ASSUMPTIONS = ["delivery orders are those of a fair scheduler (seeded random choice among pending messages, or FIFO): a LIFO "
+               "scheduler starves old messages forever (the downloader keeps issuing reads to the one server that answers), "
+               "which no network that eventually delivers every message can do; termination is C03/C46",
+               "zfec satisfies the MDS law and block length = piece length (hypothesis Codec.Lawful; sampled by every end-to-end "
                "download) and is systematic (primary block j = input piece j; used only by the correspondence of share bytes)",
                "AES-CTR encryption is xor with a keystream determined by (key, counter block) (sampled end-to-end)",
                "file sizes, k, n, segment sizes are non-negative ints; files of ≤ 55 bytes take the LIT path (C05)",
@@ -475,9 +478,9 @@ def gen_file(rng, thorough, idx):
             size = rng.choice([56, 57, 58, 56 + k])
         else:
             size = rng.randrange(56, lim)
-        size = max(56, size)
+        size = max(56, min(size, lim))
         # keep the number of segments (and so of remote writes) bounded
-        while -(-size // seg) > (400 if thorough else 120):
+        while -(-size // seg) > (250 if thorough else 120):
             size //= 2
         size = max(56, size)
         happy = rng.randrange(1, n + 1)
@@ -496,9 +499,9 @@ def run_grid(ctx):
     if ctx.replay and ctx.replay.get("case", {}).get("kind") == "file":
         files.append(tuple(ctx.replay["case"]["t"]))
     elif not ctx.replay:
-        for i in range(ctx.budget(48, 2000)):
+        for i in range(ctx.budget(48, 450)):
             f = gen_file(rng, thorough, i)
-            files.append(f + (rng.randrange(1 << 30), rng.choice(["random", "random", "random", "fifo", "lifo"])))
+            files.append(f + (rng.randrange(1 << 30), rng.choice(["random", "random", "random", "fifo"])))
     lines, impl, metas = [], [], []
     for (size, k, n, happy, max_seg, servers, seed, policy) in files:
         case = {"kind": "file", "t": [size, k, n, happy, max_seg, servers, seed, policy]}
